@@ -134,6 +134,7 @@ func (c *MemoryCache[MetadataT]) Get(key CacheKey) (*Entry[MetadataT], error) {
 		Data:     &memoryReadSeekCloser{bytes.NewReader(entry.data)},
 		Metadata: entry.meta,
 		Stale:    stale,
+		Expires:  entry.meta.Expires,
 	}, nil
 }
 
@@ -196,6 +197,7 @@ func (c *MemoryCache[MetadataT]) cacheInternal(key CacheKey, data io.Reader, exp
 	return &Entry[MetadataT]{
 		Data:     &memoryReadSeekCloser{bytes.NewReader(dataBytes)},
 		Metadata: meta,
+		Expires:  expires,
 	}, nil
 }
 
